@@ -3,6 +3,7 @@
 from __future__ import annotations
 
 from ..rules import sqlemit, sqlplace
+from ..rules import structure, triviality
 from .common import new_run
 
 LEVEL = "other"
@@ -36,5 +37,7 @@ def check(model, tier):
     sqlemit.r02_4_compound(ctx)
     sqlemit.r02_5_emission_coverage(ctx)
     sqlplace.r08_2_compound_guard(ctx)
+    triviality.r05_2_noop_predicates_agree(ctx, rule="R02.6")
+    structure.r06_1_flags(ctx, rule="R02.7")
     run.assume("within one SELECT the clauses act in the order WHERE -> ORDER BY -> select list -> DISTINCT -> OFFSET/LIMIT")
     return run
